@@ -44,11 +44,21 @@ fn cmd_gen(args: &[String]) {
     let builds = std::sync::atomic::AtomicU64::new(0);
     let groups_total = std::sync::atomic::AtomicU64::new(0);
 
+    let progress = std::env::var("GV_PROGRESS").is_ok(); // development aid: which plan was running when the process died
+    let only: Option<Vec<usize>> = std::env::var("GV_ONLY").ok().map(|s| s.split(',').filter_map(|x| x.parse().ok()).collect());
     (0..n).into_par_iter().for_each(|i| {
+        if let Some(o) = &only {
+            if !o.contains(&i) {
+                return;
+            }
+        }
         let plan = match d.plan(i) {
             Some(p) => p,
             None => return,
         };
+        if progress {
+            eprintln!("S {} {:?}", i, plan.tcs);
+        }
         let runs: Vec<model::RunRaw> = plan
             .runs
             .iter()
@@ -58,6 +68,9 @@ fn cmd_gen(args: &[String]) {
         groups_total.fetch_add(1, std::sync::atomic::Ordering::Relaxed);
         let spec = emit::GroupSpec { tcs: plan.tcs.clone(), runs, cps: plan.cps, tag: plan.tag.clone() };
         let g = emit::emit_group(&spec);
+        if progress {
+            eprintln!("E {}", i);
+        }
         if !g.notes.is_empty() {
             let mut nn = notes.lock().unwrap();
             if nn.len() < 200 {
